@@ -648,11 +648,20 @@ func ruleRC1(w *World, r *Report) {
 	}
 	// threshold: comparison of prev.refs with a constant guarding the chain stores
 	var thr *ssa.BinOp
+	var thrOp token.Token
+	var thrK int64
 	eachInstr(cas, func(in ssa.Instruction) {
 		if b, ok := in.(*ssa.BinOp); ok && (b.Op == token.GTR || b.Op == token.GEQ || b.Op == token.LSS || b.Op == token.LEQ || b.Op == token.EQL || b.Op == token.NEQ) {
 			if _, isRefs := isLoadOfField(b.X, "rootNodeLoc", "refs"); isRefs {
-				if _, isC := constInt(b.Y); isC {
-					thr = b
+				if kk, isC := constInt(b.Y); isC {
+					thr, thrOp, thrK = b, b.Op, kk
+				}
+			}
+			// constant-first spelling: `2 >= prev.refs` is `prev.refs <= 2`
+			if _, isRefs := isLoadOfField(b.Y, "rootNodeLoc", "refs"); isRefs {
+				if kk, isC := constInt(b.X); isC {
+					thr, thrK = b, kk
+					thrOp = map[token.Token]token.Token{token.GTR: token.LSS, token.GEQ: token.LEQ, token.LSS: token.GTR, token.LEQ: token.GEQ, token.EQL: token.EQL, token.NEQ: token.NEQ}[b.Op]
 				}
 			}
 		}
@@ -661,7 +670,7 @@ func ruleRC1(w *World, r *Report) {
 		r.Bad(rule, "(*Collection).rootCAS › chain threshold", w.Pos(cas.Pos()), "no comparison of prev.refs with a constant found: the previous version is never (or always) chained")
 		return
 	}
-	k, _ := constInt(thr.Y)
+	k := thrK
 	// the chain stores must be guarded by it; the arm they sit on gives the direction
 	guarded, chainPol := false, true
 	eachInstr(cas, func(in ssa.Instruction) {
@@ -674,7 +683,7 @@ func ruleRC1(w *World, r *Report) {
 		}
 	})
 	// effective threshold: chain iff refs >= minChain
-	op := thr.Op
+	op := thrOp
 	if !chainPol {
 		op = map[token.Token]token.Token{token.GTR: token.LEQ, token.GEQ: token.LSS, token.LSS: token.GEQ, token.LEQ: token.GTR, token.EQL: token.NEQ, token.NEQ: token.EQL}[op]
 	}
